@@ -99,3 +99,9 @@ func deviation(name string) (*adv.Hooks, *int) {
 	}
 	return h, hits
 }
+
+// DeviationHooks returns the hooks of a named deviation (for engines that wrap the start function themselves).
+func DeviationHooks(name string) *adv.Hooks {
+	h, _ := deviation(name)
+	return h
+}
